@@ -7,7 +7,7 @@ import ast
 from ..astutil import calls_in, path_of, unparse, walk_scope, walk_stmts
 from ..report import Ctx
 from ..suspend import StaleTime, emission_calls, event_class_names, is_time_source, node_suspension, time_bases, zero_delay_wait_loops
-from .common import need
+from .common import expand, need, single_defs
 
 SCOPE = ("happysimulator/components/", "happysimulator/faults/", "happysimulator/load/", "happysimulator/core/",
          "happysimulator/instrumentation/", "happysimulator/parallel/")
@@ -220,7 +220,8 @@ def run(ctx: Ctx) -> None:
     if ok:
         v = [k.value for k in calls[0].keywords if k.arg == "after_s"][0]
         src = [st for st in walk_stmts(ss.node.body) if isinstance(st, ast.Assign) and path_of(st.targets[0]) == path_of(v)]
-        ok = len(src) == 1 and isinstance(src[0].value, ast.Call) and path_of(src[0].value.func) == "max" and "boundary_s" in unparse(src[0].value) and "self.now.to_seconds()" in unparse(src[0].value)
+        val = expand(src[0].value, single_defs(ss)) if len(src) == 1 else None
+        ok = len(src) == 1 and isinstance(val, ast.Call) and path_of(val.func) == "max" and "boundary_s" in unparse(val) and "self.now.to_seconds()" in unparse(val)
     sn = prog.func("happysimulator/components/industrial/shift_schedule.py", "ShiftedServer._schedule_next_shift")
     txt = unparse(sn.node)
     ok2 = "self.now.to_seconds() if after_s is None else after_s" in txt and "self.schedule.next_transition_after(current_s)" in txt and "'boundary_s': next_t" in txt
